@@ -82,7 +82,10 @@ pub fn replay(case: &Value) -> Vec<String> {
     let body: Vec<u8> = serde_json::from_value(case["body"].clone()).unwrap_or_default();
     let filters: Vec<FilterSpec> = serde_json::from_value(case["filters"].clone()).unwrap_or_default();
     let headers: Headers = serde_json::from_value(case["headers"].clone()).unwrap_or_default();
-    check_case(&body, &filters, &headers, None).into_iter().map(|(s, _, _)| s).collect()
+    match crate::common::guarded(|| check_case(&body, &filters, &headers, None)) {
+        Ok(v) => v.into_iter().map(|(s, _, _)| s).collect(),
+        Err((loc, _)) => vec![format!("panic:{loc}")],
+    }
 }
 
 pub struct Case {
@@ -113,9 +116,11 @@ pub fn cases(tier: Tier) -> Vec<Case> {
         }
     }
     let gl = tier.pick(3, 4);
-    let nf = tier.pick(4, fl.len());
+    // quick: four representative lists + the first raw-text target; thorough: all lists
+    let picked: Vec<usize> = tier.pick(vec![0, 1, 2, 3, 13], (0..fl.len()).collect());
     for b in grammar_bodies(gl) {
-        for (name, f) in fl.iter().take(nf) {
+        for i in &picked {
+            let (name, f) = &fl[*i];
             out.push(Case { body: b.clone().into_bytes(), filters_name: name.to_string(), filters: f.clone(), headers: vec![] });
         }
     }
@@ -145,7 +150,11 @@ pub fn run(tier: Tier) -> i32 {
         if reference != c.body {
             nontrivial.fetch_add(1, Ordering::Relaxed);
         }
-        for (sig, what, hist) in check_case(&c.body, &c.filters, &c.headers, Some((&states, &transitions, &max_chunks))) {
+        let checked = match crate::common::guarded(|| check_case(&c.body, &c.filters, &c.headers, Some((&states, &transitions, &max_chunks)))) {
+            Ok(v) => v,
+            Err((loc, msg)) => vec![(format!("panic:{loc}"), format!("the filter chain panicked at {loc}: {msg}; body {:?}", String::from_utf8_lossy(&c.body)), vec![])],
+        };
+        for (sig, what, hist) in checked {
             let cuts = hist.iter().filter(|k| **k > 0).count() as u64;
             ctx.report(Violation {
                 signature: sig,
@@ -156,8 +165,11 @@ pub fn run(tier: Tier) -> i32 {
         }
         // abstraction cross-check: unmerged enumeration of all partitions for short bodies
         if c.body.len() <= 13 && !c.body.is_empty() {
-            let (count, finals) = all_partitions_outputs(&c.body, &c.filters, &c.headers);
-            let merged = explore(&c.body, &c.filters, &c.headers, false, true);
+            let both = crate::common::guarded(|| (all_partitions_outputs(&c.body, &c.filters, &c.headers), explore(&c.body, &c.filters, &c.headers, false, true)));
+            let ((count, finals), merged) = match both {
+                Ok(v) => v,
+                Err(_) => return,
+            };
             crosschecked.fetch_add(1, Ordering::Relaxed);
             cross_partitions.fetch_add(count, Ordering::Relaxed);
             let a: Vec<&Vec<u8>> = finals.keys().collect();
@@ -192,7 +204,7 @@ pub fn run(tier: Tier) -> i32 {
         .set("max_chunks_in_a_shortest_history", json!(max_chunks.load(Ordering::Relaxed)))
         .set("abstraction_crosscheck", json!({"cases": crosschecked.load(Ordering::Relaxed), "unmerged_partitions": cross_partitions.load(Ordering::Relaxed), "result": "same terminal output sets"}))
         .set("exhaustive", json!(true))
-        .set("bound", json!(format!("bodies: curated corpus ({} docs) x {} filter lists (+ header variants) and all sequences of <= {} grammar tokens x {} filter lists; every partition of every body", curated_bodies().len(), filter_lists().len(), tier.pick(3, 4), tier.pick(4, filter_lists().len()))));
+        .set("bound", json!(format!("bodies: curated corpus ({} docs) x {} filter lists (+ header variants) and all sequences of <= {} grammar tokens x {} filter lists; every partition of every body", curated_bodies().len(), filter_lists().len(), tier.pick(3, 4), tier.pick(5, filter_lists().len()))));
     cov.assume("state merging keys on the derived Debug rendering of FilterBodyAction (all fields of the HTML/text stages); validated per run by the unmerged cross-check on bodies <= 13 bytes")
         .assume("compressed chains are C14's subject");
     finish(&ctx, cov, &replay)
